@@ -16,15 +16,12 @@ import vlib
 
 ENV = {"ASAN_OPTIONS": "detect_leaks=0:abort_on_error=0", "UBSAN_OPTIONS": "print_stacktrace=1"}
 MSEL = list(range(23))
-FLAGS = ["xcache", "bfrag"]   # C15-19 (alias list invalidation), C15-20 (Barth-style alias fragment): decided by probing the tree with the witnesses
+FLAGS = []   # no repair is pending: everything proposed up to C15-20 is in the finally frozen tree
 
 # ---------------------------------------------------------------- witnesses
 # one per repair flag; the implementation's output on the witness must equal
 # the model's with the flag off (defect present) or on (repaired)
-WITNESS = {
-    "xcache": ["A 0 - p 15 0 0 - - 1", "L - al p/m 0", "Q - 22 0", "A 1 p m 15 0 0 - - 2", "Q - 22 0", "D p/m 0", "Q - 22 0"],
-    "bfrag": ["A 0 - p 15 0 0 - - 1", "A 0 - x 15 0 0 - - 2", "L - p/al x 1"],
-}
+WITNESS = {}
 # regression witnesses for the defects repaired in /repo (fix: commits d815d97 .. 71a6c5d, fb2ee00):
 # run like every other sequence; they must now agree with the model and satisfy the property text
 FIXED_WITNESS = {
@@ -38,6 +35,13 @@ FIXED_WITNESS = {
     "parent": ["A 0 - p 15 0 0 - - 1", "A 0 p c 15 0 0 - - 2", "D p/c 0"],
     "malias": ["A 0 - p 15 0 0 - - 1", "A 0 - x 15 0 0 - - 2", "L p al x 0", "Q p 22 0", "D p 0"],
     "alias-loop": ["L - b c 0", "L - c b 0", "L - a b 0", "R a zz 0"],
+    "xcache": ["A 0 - p 15 0 0 - - 1", "L - al p/m 0", "Q - 22 0", "A 1 p m 15 0 0 - - 2", "Q - 22 0", "D p/m 0", "Q - 22 0"],
+    "xcache-parent": ["A 0 - p 15 0 0 - - 1", "L p al x 0", "Q p 22 0", "A 0 - x 15 0 0 - - 2", "Q p 22 0", "R x y 4", "Q p 22 0"],
+    "bfrag": ["A 0 - p 15 0 0 - - 1", "A 0 - x 15 0 0 - - 2", "L - p/al x 1", "X 1 q ~"],
+    "madd-fragment-index": ["A 0 - r2 17 1 0 - - 71", "A 0 r2 xx 2 2 1 INDEX - 23"],
+    "include-cache": ["A 0 - a 15 0 0 - - 1", "Q - 22 0", "I inc1 0", "Q - 22 0", "J inc2 1 P_ _S", "Q - 22 0"],
+    "uninclude": ["A 0 - a 15 1 0 - - 1", "A 0 - r 0 1 0 - - 0", "I inc1 0", "J inc2 1 P_ _S", "Q - 22 0", "U 1", "Q - 22 0", "A 0 - z 15 1 0 - - 1", "U 1", "Q - 22 0"],
+    "namespace-null": ["I inc1 1", "N 1 ns", "N 2 n.s", "Q - 22 0"],
     "alias-intermediate": ["A 0 - x 15 0 0 - - 1", "L - b x 0", "L - a b 0", "D b 8"],
     "alias-intermediate-readd": ["A 0 - x 15 0 0 - - 1", "L - b x 0", "L - a b 0", "D b 8", "A 0 - b 17 0 0 - - 0"],
     "dotparent": ["A 0 - ab 15 0 0 - - 1", "A 0 .ab x 5 0 0 ab - 0", "L .ab y ab 0", "Q ab 22 0", "D .ab/x 0"],
@@ -55,10 +59,9 @@ FIXED_WITNESS = {
 # open defects: the model reproduces them faithfully (model == implementation) and the
 # specification check flags them
 EXTRA_WITNESS = {
-    "alias-cache": ["A 0 - p 15 0 0 - - 1", "L - al p/m 0", "Q - 22 0", "A 1 p m 15 0 0 - - 2", "Q - 22 0"],
-    "alias-cache-del": ["A 0 - p 15 0 0 - - 1", "A 1 p m 15 0 0 - - 2", "L - al p/m 0", "Q - 22 0", "D p/m 8", "Q - 22 0"],
     "affix-alias": ["A 0 - x 15 1 0 - - 1", "L - al x 0", "X 1 p ~"],
     "affix-reference": ["A 0 - r 0 1 0 - - 0", "X 1 p ~"],
+    "namespace-alias": ["I inc1 0", "N 2 ns", "Q - 22 0"],
 }
 
 
@@ -529,10 +532,7 @@ def main():
     chk.notes.append("detected configuration: " + json.dumps(cfgnote))
     chk.cov["config_bits"] = bits
 
-    # does gd_madd*() still read D->fragment[entry->fragment_index]?  (C15-17)
-    prc, pout = run_impl(["A 0 - r2 17 1 0 - - 71", "A 0 r2 xx 2 2 1 INDEX - 23"])
-    madd_frag_safe = (prc == 0)
-    chk.notes.append("gd_madd fragment index: " + ("ignored (C15-17 present)" if madd_frag_safe else "out-of-bounds read (as listed)"))
+    madd_frag_safe = True   # 81b3046: gd_madd*() ignores the caller's fragment index
 
     # ---- 2. generated sequences
     nseq = 160 if not chk.thorough else 2500
@@ -707,9 +707,8 @@ def main():
 
     # behaviour outside the model, judged against the property text directly
     DIRECT = {
-        # gd_madd*() ignores the caller's fragment_index, except that _GD_Add checks the affixes of the
-        # input codes against D->fragment[entry->fragment_index]
-        "crash/madd-fragment-index": ["A 0 - r2 17 1 0 - - 71", "A 0 r2 xx 2 2 1 INDEX - 23"],
+        # gd_alter_spec (mod.c, outside the model) drops the hidden flag of the field and keeps the cached lists
+        "list/S": ["A 0 - r2 15 0 1 - - 5", "A 0 - b 15 0 0 - - 1", "Q - 22 0", "S - r2 6", "Q - 22 0"],
     }
     for dkey, dops in DIRECT.items():
         drc, dout = run_impl(dops)
